@@ -30,10 +30,10 @@ def c14(tier, rep):
     rep.extra["rule"] = ("every (parser position, unexpected line kind) pair through Parser.match_token; every document <= N over a menu of faulty lines in both error "
                          "modes; every sequence of 12/13 faulty lines (error limit, de-duplication); corpus + generated + noisy traces in both modes")
     _error_transitions(rep)
-    E.menu(rep, M.ERRORS, 3 if tier == "quick" else 4, max_errs=4, invariants=["Inv_C14", "Inv_C04"], label="errors")
+    E.menu(rep, M.ERRORS, 3 if tier == "quick" else 4, max_errs=4, invariants=["Inv_C14", "Inv_C04", "Inv_C14_Iff"], label="errors")
     E.menu(rep, M.ERRORS, 3, mode="stop", max_errs=1, invariants=["Inv_C14"], label="errors-stop")
     E.menu(rep, CAP_MENU, 12 if tier == "quick" else 13, max_errs=11, invariants=["Inv_C14", "Inv_C01"], label="error-limit")
-    E.traces(rep, E.record_all(std_sources(tier, 300, 3000), modes=("collect", "stop")), "corpus+gen+noisy")
+    E.traces(rep, E.record_all(std_sources(tier, 300, 3000), modes=("collect", "stop"), iff=200 if tier == "quick" else 2000), "corpus+gen+noisy")
     E.reuse_pass(rep, E.src_limits() + E.src_corpus() + E.src_limits() + E.src_noisy(100, SEED), "reuse")
 
 
